@@ -431,7 +431,7 @@ func deathVerdict(c Case, stderr string) evid.Verdict {
 	case strings.Contains(stderr, "out of memory"), strings.Contains(stderr, "cannot allocate memory"):
 		return evid.Fail(sig("alloc", c.EP, frame, dep),
 			"%s requests more memory than the worker's address-space cap allows (start size + %d MiB) for an input of %d bytes: fatal, unrecoverable runtime error; the bound is %d bytes\n%s",
-			c.EP, workerBudget>>20, len(c.In), allocBound(len(c.In)), desc)
+			c.EP, workerBudget>>20, len(c.In), allocBoundFor(c), desc)
 	case strings.Contains(stderr, "stack overflow"), strings.Contains(stderr, "stack exceeds"):
 		return evid.Fail(sig("stack-overflow", c.EP, frame, dep), "%s overflows the goroutine stack (fatal, unrecoverable) on an input of %d bytes\n%s", c.EP, len(c.In), desc)
 	}
@@ -510,7 +510,7 @@ func (r *runner) run(b batch) {
 		}
 		switch e.kind {
 		case "died":
-			if n, ok := oomBlock(e.stderr); ok && n > allocBound(len(c.In)) {
+			if n, ok := oomBlock(e.stderr); ok && n > allocBoundFor(c) {
 				// the refused request alone breaks the bound, whatever the worker held before: no need to
 				// spend a second worker on confirming it
 				r.onFatal(b, c, deathVerdict(c, e.stderr))
